@@ -264,3 +264,89 @@ package lossy
 //@   modifies *
 //@   resets enc zero: leftNz leftNzDC leftDerr dqY1DC dqY2DC dqY2AC dqUVDC dqUVAC globalAlpha globalUVAlpha baseQuant numSegments skipProba numSkip maxI4HeaderBits rateCtrl nzCounts stats filterHdr segmentHdr skipTokens skipExportPlanes parallelRS savedY savedU savedV tmpBestNz dqm \
 //@     scratch: config width height numParts useDerr mbInfo topDerr mbW mbH yPlane uPlane vPlane yStride uvStride yuvIn yuvOut yuvOut2 yuvP proba tokens mbIterator topNz topNzDC tmpCoeffs tmpQCoeffs tmpDQCoeffs tmpDCCoeffs tmpWHTDQ tmpWHTBuf tmpAllQ tmpACLevels tmpRecon tmpUVLevels tmpBestDQ tmpBestQ tmpAnSrc tmpAnPred tmpAnSrcU tmpAnSrcV tmpAnPredU tmpAnPredV statTopNz statTopNzDC itTopY itTopU itTopV itTopModes itTopNZ analysisAlphas segMapTmp serialRowR serialRowG serialRowB serialRowA serialPlanarR serialPlanarG serialPlanarB serialPlanarA serialTmpRGB
+//
+// ---- C04: the loop-filter primitives the lossy decoder itself runs ----
+//
+// The normal (complex) loop filter of the decoder does not go through
+// internal/dsp: decode_frame.go has its own copies of the threshold test, the
+// high-edge-variance test and the three pixel filters. They are held to the
+// same RFC 6386 section 15 specification functions as the dsp versions.
+//@ func needsFilter2At
+//@   property C04 C05
+//@   requires 1 <= step && step <= 4096 && 4*step <= off && off <= 0x40000000 && off + 3*step < len(p) && len(p) <= 0x40000000
+//@   modifies nothing
+//@   ensures result <==> dsp.SpecNormalThreshold(int(p[off-4*step]), int(p[off-3*step]), int(p[off-2*step]), int(p[off-step]), int(p[off]), int(p[off+step]), int(p[off+2*step]), int(p[off+3*step]), thresh, ithresh)
+//
+//@ func isHEV
+//@   property C04
+//@   modifies nothing
+//@   ensures result <==> dsp.SpecHev(int(p1), int(p0), int(q0), int(q1), thresh)
+//
+//@ func doSimpleFilter2
+//@   property C04 C05
+//@   requires 1 <= step && step <= 4096 && 2*step <= off && off <= 0x40000000 && off + step < len(p) && len(p) <= 0x40000000
+//@   modifies p[off-step:off+1]
+//@   ensures int(p[off-step]) == old(dsp.SpecSimpleFilterP0(int(p[off-2*step]), int(p[off-step]), int(p[off]), int(p[off+step])))
+//@   ensures int(p[off]) == old(dsp.SpecSimpleFilterQ0(int(p[off-2*step]), int(p[off-step]), int(p[off]), int(p[off+step])))
+//
+//@ func doSimpleFilter4
+//@   property C04 C05
+//@   requires 1 <= step && step <= 4096 && 2*step <= off && off <= 0x40000000 && off + step < len(p) && len(p) <= 0x40000000
+//@   modifies p[off-2*step:off+step+1]
+//@   ensures int(p[off-2*step]) == old(dsp.SpecSubblockFilter(int(p[off-2*step]), int(p[off-step]), int(p[off]), int(p[off+step])).0)
+//@   ensures int(p[off-step]) == old(dsp.SpecSubblockFilter(int(p[off-2*step]), int(p[off-step]), int(p[off]), int(p[off+step])).1)
+//@   ensures int(p[off]) == old(dsp.SpecSubblockFilter(int(p[off-2*step]), int(p[off-step]), int(p[off]), int(p[off+step])).2)
+//@   ensures int(p[off+step]) == old(dsp.SpecSubblockFilter(int(p[off-2*step]), int(p[off-step]), int(p[off]), int(p[off+step])).3)
+//
+//@ func doSimpleFilter6
+//@   property C04 C05
+//@   requires 1 <= step && step <= 4096 && 3*step <= off && off <= 0x40000000 && off + 2*step < len(p) && len(p) <= 0x40000000
+//@   modifies p[off-3*step:off+2*step+1]
+//@   ensures int(p[off-3*step]) == old(dsp.SpecMBFilter(int(p[off-3*step]), int(p[off-2*step]), int(p[off-step]), int(p[off]), int(p[off+step]), int(p[off+2*step])).0)
+//@   ensures int(p[off-2*step]) == old(dsp.SpecMBFilter(int(p[off-3*step]), int(p[off-2*step]), int(p[off-step]), int(p[off]), int(p[off+step]), int(p[off+2*step])).1)
+//@   ensures int(p[off-step]) == old(dsp.SpecMBFilter(int(p[off-3*step]), int(p[off-2*step]), int(p[off-step]), int(p[off]), int(p[off+step]), int(p[off+2*step])).2)
+//@   ensures int(p[off]) == old(dsp.SpecMBFilter(int(p[off-3*step]), int(p[off-2*step]), int(p[off-step]), int(p[off]), int(p[off+step]), int(p[off+2*step])).3)
+//@   ensures int(p[off+step]) == old(dsp.SpecMBFilter(int(p[off-3*step]), int(p[off-2*step]), int(p[off-step]), int(p[off]), int(p[off+step]), int(p[off+2*step])).4)
+//@   ensures int(p[off+2*step]) == old(dsp.SpecMBFilter(int(p[off-3*step]), int(p[off-2*step]), int(p[off-step]), int(p[off]), int(p[off+step]), int(p[off+2*step])).5)
+//
+// The edge loops hand each position to the primitives with the right step
+// (bps for a horizontal edge filtered vertically, 1 for a vertical edge), the
+// doubled-plus-one edge limit, and choose the 2-tap filter or the macroblock /
+// sub-block filter (26 = macroblock edge, 24 = inner edge). `nosafety`: the
+// row offset base + j*bps is 2-D arithmetic; the primitives' bounds
+// preconditions are therefore not established here (they are abstracted).
+//@ func filterLoop26VAt
+//@   property C04
+//@   nosafety
+//@   modifies *
+//@   abstract doSimpleFilter2, doSimpleFilter6
+//@   callsite needsFilter2At: assert arg0 == p && arg1 == base + i && arg2 == bps && arg3 == 2*thresh + 1 && arg4 == ithresh
+//@   callsite doSimpleFilter2: assert arg0 == p && arg1 == base + i && arg2 == bps && dsp.SpecHev(int(p[off-2*bps]), int(p[off-bps]), int(p[off]), int(p[off+bps]), hevThresh)
+//@   callsite doSimpleFilter6: assert arg0 == p && arg1 == base + i && arg2 == bps && !dsp.SpecHev(int(p[off-2*bps]), int(p[off-bps]), int(p[off]), int(p[off+bps]), hevThresh)
+//
+//@ func filterLoop26At
+//@   property C04
+//@   nosafety
+//@   modifies *
+//@   abstract doSimpleFilter2, doSimpleFilter6
+//@   callsite needsFilter2At: assert arg0 == p && arg1 == base + j*bps && arg2 == 1 && arg3 == 2*thresh + 1 && arg4 == ithresh
+//@   callsite doSimpleFilter2: assert arg0 == p && arg1 == base + j*bps && arg2 == 1 && dsp.SpecHev(int(p[off-2*1]), int(p[off-1]), int(p[off]), int(p[off+1]), hevThresh)
+//@   callsite doSimpleFilter6: assert arg0 == p && arg1 == base + j*bps && arg2 == 1 && !dsp.SpecHev(int(p[off-2*1]), int(p[off-1]), int(p[off]), int(p[off+1]), hevThresh)
+//
+//@ func filterLoop24VAt
+//@   property C04
+//@   nosafety
+//@   modifies *
+//@   abstract doSimpleFilter2, doSimpleFilter4
+//@   callsite needsFilter2At: assert arg0 == p && arg1 == base + i && arg2 == bps && arg3 == 2*thresh + 1 && arg4 == ithresh
+//@   callsite doSimpleFilter2: assert arg0 == p && arg1 == base + i && arg2 == bps && dsp.SpecHev(int(p[off-2*bps]), int(p[off-bps]), int(p[off]), int(p[off+bps]), hevThresh)
+//@   callsite doSimpleFilter4: assert arg0 == p && arg1 == base + i && arg2 == bps && !dsp.SpecHev(int(p[off-2*bps]), int(p[off-bps]), int(p[off]), int(p[off+bps]), hevThresh)
+//
+//@ func filterLoop24HAt
+//@   property C04
+//@   nosafety
+//@   modifies *
+//@   abstract doSimpleFilter2, doSimpleFilter4
+//@   callsite needsFilter2At: assert arg0 == p && arg1 == base + j*bps && arg2 == 1 && arg3 == 2*thresh + 1 && arg4 == ithresh
+//@   callsite doSimpleFilter2: assert arg0 == p && arg1 == base + j*bps && arg2 == 1 && dsp.SpecHev(int(p[off-2*1]), int(p[off-1]), int(p[off]), int(p[off+1]), hevThresh)
+//@   callsite doSimpleFilter4: assert arg0 == p && arg1 == base + j*bps && arg2 == 1 && !dsp.SpecHev(int(p[off-2*1]), int(p[off-1]), int(p[off]), int(p[off+1]), hevThresh)
